@@ -126,6 +126,10 @@ func validateLeaseSetInputs(dest destination.Destination, encryptionKey types.Re
 	if len(encryptionKey.Bytes()) != LEASE_SET_PUBKEY_SIZE {
 		return oops.Errorf("invalid encryption key size")
 	}
+	// The wire parser only accepts ElGamal keys in the valid range: refuse to build what it rejects.
+	if _, err := elgamal.NewElgPublicKey(encryptionKey.Bytes()); err != nil {
+		return oops.Errorf("invalid ElGamal encryption key: %w", err)
+	}
 
 	// Validate lease count
 	if len(leases) > LEASE_SET_MAX_LEASES {
